@@ -4,6 +4,7 @@ verus! {
 pub uninterp spec fn sha256(d: Seq<u8>) -> Seq<u8>;
 pub broadcast axiom fn axiom_sha256_len(d: Seq<u8>) ensures #[trigger] sha256(d).len() == 32;
 pub struct Sha256 { pub buf: Ghost<Seq<u8>> }
+#[derive(Debug)]
 pub struct Output { pub b: [u8; 32] }
 pub trait AsBytes { spec fn bview(&self) -> Seq<u8>; }
 impl<'a> AsBytes for &'a [u8] { open spec fn bview(&self) -> Seq<u8> { (*self)@ } }
